@@ -448,3 +448,64 @@ func genInlineRich(r *Rng, wild bool) []byte {
 	}
 	return []byte(out)
 }
+
+// chunkBoundaryDocs: documents built so that a line ending, a NUL run, a multi-byte character or the end of
+// the input falls exactly on (or next to) a multiple of the streaming parser's 8 KiB read size — measured from the
+// start of the input and, because each document is a single root block or starts a new one there, from the start
+// of a root block too — and documents whose size and NUL count make the padded buffer outgrow a partly filled chunk.
+func chunkBoundaryDocs() [][]byte {
+	var out [][]byte
+	filler := func(n int, eol string) []byte {
+		var b []byte
+		for len(b)+8 <= n {
+			b = append(b, "abcdefg"...)
+			if len(eol) == 2 && len(b)+2 <= n {
+				b = append(b[:len(b)-1], eol...)
+			} else {
+				b = append(b, eol[len(eol)-1])
+			}
+		}
+		for len(b) < n {
+			b = append(b, 'x')
+		}
+		return b
+	}
+	specials := []string{"\r\n", "\r", "\r\r\n", "\x00", "\x00\x00\x00", "é", "\r\n\r\n", "\n\n", "€"}
+	for _, B := range []int{8192, 16384} {
+		for _, eol := range []string{"\n", "\r\n", "\r"} {
+			for _, sp := range specials {
+				for k := 0; k <= len(sp); k++ {
+					d := filler(B-k, eol)
+					if d[len(d)-1] == '\n' || d[len(d)-1] == '\r' {
+						d[len(d)-1] = 'y'
+					}
+					d = append(d, sp...)
+					d = append(d, "same paragraph"+eol+eol+"second *block*"+eol...)
+					out = append(out, d)
+				}
+			}
+			// the input ends exactly at / just before / just after the boundary
+			for k := -1; k <= 1; k++ {
+				out = append(out, filler(B+k, eol))
+			}
+		}
+	}
+	// NUL padding that does not fit into the partly filled chunk
+	for _, z := range []int{1, 2, 10, 100, 1000, 2700} {
+		for _, n := range []int{8192 - z, 8192 - z - 1, 8192 - 2*z + 1, 8192 - 2*z, 8192 - 3*z/2, 8191, 8192} {
+			if n <= z+10 {
+				continue
+			}
+			d := filler(n-z, "\n")
+			// spread the NULs: half in one run in the middle, the rest at the end of the data
+			mid := len(d) / 2
+			var b []byte
+			b = append(b, d[:mid]...)
+			b = append(b, make([]byte, z/2)...)
+			b = append(b, d[mid:]...)
+			b = append(b, make([]byte, z-z/2)...)
+			out = append(out, b)
+		}
+	}
+	return out
+}
